@@ -112,6 +112,27 @@ fn c12(r: &Run, rec: &StepRec) {
             if let Some(f) = &rec.obs.fee {
                 prove_d("C12/open-fee-equals-vamm-quote", s(f.toll_fee).eq(toll).and(s(f.spread_fee).eq(spread)), what.clone());
             }
+            // native collateral: the coins the engine accepted with the order are what the trader
+            // is charged - the margin owed to the vault plus BOTH fees (fresh open), less what the
+            // closed leg releases (reversal)
+            if let (true, Op::Open { who, funds: Some(_), .. }) = (r.w.token.is_none(), &rec.op) {
+                let p1m = rec.post.pos[&(r.vi, *who)].as_ref().map(|p| s(p.margin)).unwrap_or(c(0));
+                // (net of everything: coins attached, refunds of a closed leg)
+                let paid = delta(rec, who).neg();
+                let no_bad_debt = s(rec.post.eng.bad_debt).eq(s(rec.pre.eng.bad_debt));
+                match (&rec.obs.pos, rec.obs.out_spot) {
+                    (None, _) => {
+                        prove_d("C12/native-open-charges-margin-and-both-fees", paid.eq(p1m.add(toll).add(spread)), format!("{} fresh", what));
+                    }
+                    (Some(p0), Some(q)) if swaps >= 2 && !p0.size.value.is_zero() => {
+                        let fund = crate::spec::funding_owed(p0, &r.cum_ledger[r.vi], d);
+                        let eq_old = crate::spec::equity(p0, crate::spec::pnl(p0, q), fund);
+                        let owed = p1m.add(toll).add(spread).sub(eq_old);
+                        prove_d("C12/native-open-charges-margin-and-both-fees", eq_old.ge(c(0)).and(no_bad_debt).implies(paid.eq(owed)), format!("{} reversal", what));
+                    }
+                    _ => {}
+                }
+            }
         }
         Op::Close { .. } => {
             // a whole close charges the fee quoted for the open notional (partial closes are not
